@@ -422,6 +422,8 @@ def check_c16(prop, tier):
                     m = (int(m[0]), int(m[1]), int(m[2]))
                 except ValueError:
                     m = None
+                except Exception as e:  # noqa: BLE001
+                    m = ("raised", type(e).__name__, 0)
                 if m is None:
                     ok = t[0] == 0 and t[2] < 0    # no plan in either
                 else:
@@ -453,7 +455,10 @@ def check_c16(prop, tier):
         for ni in range(1, nb + 1):
             res.add(evaluations=1, states=1, transitions=1)
             t = tuple(int(x) for x in tab[ni, 1])
-            m = tuple(int(x) for x in mixed.mixed_step_memoization(ni, 1))
+            try:
+                m = tuple(int(x) for x in mixed.mixed_step_memoization(ni, 1))
+            except Exception as e:  # noqa: BLE001
+                m = ("raised", type(e).__name__, 0)
             if t != m:
                 res.violation({"cls": "planner", "code": "table_entry"},
                               f"sub-problem ({ni} steps, 1 unit): tabulated "
